@@ -1,18 +1,20 @@
 #!/bin/sh
 # usage: verify_mutant.sh <worktree> <mutant-dir>   — confirms: applies, full suite passes with it, demo fails with / passes without.
-wt="$1"; m="$2"
+wt="$1"; m="$2"; FEAT="${3:-}"
+if [ -n "$FEAT" ]; then FF="--features"; else FF=""; fi
 export CARGO_TARGET_DIR=/tmp/mut_target CARGO_NET_OFFLINE=true
 cd "$wt" || exit 2
 git checkout -q -- . ; rm -f tests/verif_demo.rs
 git apply "$m/patch.diff" || { echo "RESULT apply=FAIL"; exit 1; }
+if [ -n "$FEAT" ]; then featfails=$(cargo test --offline --features "$FEAT" --lib --tests 2>&1 | grep -cE "^test .* FAILED|^error"); else featfails=n/a; fi
 fails=$(cargo test --workspace --no-fail-fast --offline --lib --tests 2>&1 | grep -cE "^test .* FAILED|^error")
 cp "$m/demo.rs" tests/verif_demo.rs
-demo_with=$(cargo test --offline --test verif_demo 2>&1 | grep -E "^test result" | tail -1)
-git checkout -q -- src specs-derive 2>/dev/null
-demo_without=$(cargo test --offline --test verif_demo 2>&1 | grep -E "^test result" | tail -1)
+demo_with=$(cargo test --offline --test verif_demo $FF "$FEAT" 2>&1 | grep -E "^test result" | tail -1)
+git checkout -q -- src specs-derive 2>/dev/null; git checkout -q -- Cargo.lock 2>/dev/null
+demo_without=$(cargo test --offline --test verif_demo $FF "$FEAT" 2>&1 | grep -E "^test result" | tail -1)
 rm -f tests/verif_demo.rs
 git checkout -q -- .
 echo "RESULT mutant=$m"
 echo "  demo WITH patch   : $demo_with"
 echo "  demo WITHOUT patch: $demo_without"
-echo "  existing suite with patch: $fails failing tests / build errors"
+echo "  existing suite with patch: $fails failing tests / build errors (with features \"$FEAT\": $featfails)"
